@@ -172,6 +172,8 @@ def judge_declarative(case, ctx, prefix):
         t = rng.choice(list(DECL)) if k else rng.choice(['voltage_source', 'current_source', 'ac_voltage_source'])
         vals = DECL[t][1](rng)
         e = {'type': t, 'name': f'{t[:2].upper()}{k}', **vals, 'direction': rng.choice(dirs)}
+        if k == 0 and rng.random() < 0.3:
+            del e['direction']                      # no direction given: the symbol takes the drawing's default direction and length
         if rng.random() < 0.4:
             e['length'] = rng.choice([1, 2, 0.5, 1.5])
         if t.endswith('source') and rng.random() < 0.4:
@@ -243,13 +245,31 @@ def judge_declarative(case, ctx, prefix):
     d1 = circuits_equal(c_prog, c_first) if not raised(c_first) else ('untranslatable', c_first.text)
     if d1:
         ctx.violation(f'{prefix}/declarative/differs-from-programmatic/{d1[0]}', f'(first use) {d1[1]}', {})
+    if rng.random() < 0.5:
+        # the same description drawn into a matplotlib axes handed over by the caller (the simulator's entry point)
+        import matplotlib
+        matplotlib.use('Agg')
+        import matplotlib.pyplot as plt
+        fig, ax = plt.subplots()
+        try:
+            on_ax = call(create_schematic, shared, ax)
+            ctx.count('declarative_on_axes')
+            if raised(on_ax):
+                ctx.violation(f'{prefix}/declarative/on-axes/raised/{on_ax.key}', f'create_schematic(description, axes) raised {on_ax.text}', {})
+            else:
+                c_ax = call(circuit_translator, on_ax)
+                d2 = circuits_equal(c_prog, c_ax) if not raised(c_ax) else ('untranslatable', c_ax.text)
+                if d2:
+                    ctx.violation(f'{prefix}/declarative/on-axes/differs-from-programmatic/{d2[0]}', f'(drawn into a given axes, unit {unit}) {d2[1]}', {})
+        finally:
+            plt.close(fig)
 
 
 def guards(m, tier):
     c = m['counters']
     r = []
     q = tier == 'quick'
-    for k, need in (('drawings', 110), ('cycles_compared', 250), ('declarative_compared', 80)):
+    for k, need in (('drawings', 110), ('cycles_compared', 250), ('declarative_compared', 80), ('declarative_on_axes', 30)):
         need = need if q else need * 14
         if c.get(k, 0) < need:
             r.append(f'{k} = {c.get(k, 0)} (<{need})')
